@@ -227,6 +227,13 @@ def install():
     _bin("logical_or", "truth-value or", lambda x, y: bool(x) or bool(y))
     _bin("logical_xor", "truth-value xor", lambda x, y: bool(x) != bool(y))
     _un("logical_not", "truth-value not", lambda e: not bool(e))
+    def _sign(e):
+        if isinstance(e, CS):
+            return e / abs(e)  # NumPy >= 2: sign(z) = z / |z|
+        e = S.L(e)
+        return 1.0 if e > 0 else (-1.0 if e < 0 else 0.0)
+
+    _un("sign", "sign(x) via comparison with 0; sign(z) = z/|z| for complex z (NumPy 2)", _sign)
     _un("sinc", "sinc(x) = sin(pi x)/(pi x)", lambda e: (S.L(e) * onp.pi).sin() / (S.L(e) * onp.pi))
     _un("fabs", "fabs(x) = |x| via comparison with 0", lambda e: abs(e))
     _un("positive", "+x", lambda e: e)
